@@ -4,6 +4,7 @@ import Driver.Auth
 import Driver.Rights
 import Driver.Trace
 import Driver.Lock
+import Driver.Server
 open Lean
 
 def dispatch (j : Json) : Json :=
@@ -12,6 +13,7 @@ def dispatch (j : Json) : Json :=
   | "authcache" => Driver.handleAuth j
   | "rights" => Driver.handleRights j
   | "trace" => Driver.handleTrace j
+  | "server" => Driver.handleServer j
   | "ping" => Driver.obj [("r", Json.str "pong")]
   | _ => Driver.obj [("error", Json.str "bad-model")]
 
